@@ -90,6 +90,11 @@ def check_predict(chk, rep, repo, cls, fields):
     nbnode = ("idx", ("attr", G, "nodes"), nb)
     dens = None
     okc = False
+    # the neighbour position read from the index buffer: int(N[r]), N[r].item(), or N[r] itself (an integer-typed buffer)
+    for cand_nb in (nb, ("call", ("attr", ("idx", sc.N, r), "item"), (), ()), ("idx", sc.N, r)):
+        cand_node = ("idx", ("attr", G, "nodes"), cand_nb)
+        if bs.cand[0] == "min" and len(bs.cand[1]) == 2 and ("attr", cand_node, "cost") in bs.cand[1]:
+            nb, nbnode = cand_nb, cand_node
     if bs.cand[0] == "min" and len(bs.cand[1]) == 2 and ("attr", nbnode, "cost") in bs.cand[1]:
         dens = [t for t in bs.cand[1] if t != ("attr", nbnode, "cost")][0]
         okc = True
